@@ -4,6 +4,7 @@ C17 — specification side (core Lean only): what "the same document", "a re-cas
 and by the driver's monitor.
 -/
 import GoZero.C17.Model
+import GoZero.C17.Buf
 namespace GoZero.C17
 
 /-! ### the same document in the three formats
@@ -111,6 +112,31 @@ def inScopeList : JL → Bool
 def inScopeMap : JM → Bool
   | .nil => true
   | .cons _ v t => inScope v && inScopeMap t
+end
+
+/-- canonical for JSON and YAML (TOML has no integers beyond int64): `canonNum`, or a canonical non-negative integer up
+to MaxUint64 (yaml.v2 resolves it to uint64, `toStringKeyMap` prints it back with `lang.Repr`). -/
+def canonNumJY (lit : Str) : Bool :=
+  canonNum lit ||
+    match parseInt? lit with
+    | some i => decide (intRepr i = lit) && decide (0 ≤ i) && uintInRange 64 i.toNat
+    | none => false
+
+mutual
+/-- representable in JSON and YAML alike (the two-format scope of the format clause). -/
+def inScopeJY : J → Bool
+  | .null => false
+  | .nilArr => false
+  | .num lit => canonNumJY lit
+  | .arr l => inScopeJYList l
+  | .obj m => inScopeJYMap m
+  | _ => true
+def inScopeJYList : JL → Bool
+  | .nil => true
+  | .cons h t => inScopeJY h && inScopeJYList t
+def inScopeJYMap : JM → Bool
+  | .nil => true
+  | .cons _ v t => inScopeJY v && inScopeJYMap t
 end
 
 mutual
@@ -279,5 +305,57 @@ def keysExactStruct (fs : Fields) (ks : List Str) : JM → Bool
      else !((ks.map lower).contains (lower k)))
     && keysExactStruct fs ks r
 end
+
+/-! ### the delegating entry points, through their data flow (`Buf.lean` part 2)
+
+The values that travel through `mapping.Unmarshal{Yaml,Toml}{Bytes,Reader}` and `conf.LoadFrom{Yaml,Toml}Bytes`:
+the document text, the target pointer, option values, the generic tree a front end renders, a result. -/
+inductive EV where
+  | yamlText (y : Y) | tomlText (t : T) | jsonTree (j : J) | target | opt (o : MOpt) | res (r : R Val) | bad
+
+def optsOfEVs : List EV → Option (List MOpt)
+  | [] => some []
+  | .opt o :: r => (optsOfEVs r).map (o :: ·)
+  | _ :: _ => none
+
+/-- what the callees of the delegating functions do (`base` = what is not an option: the process environment;
+`oc` = the option record `LoadFromJsonBytes` builds itself). -/
+def semBase (base oc : Opts) (fs : Fields) (callee : String) (args : List EV) : EV :=
+  if callee = "encoding.YamlToJson" then
+    match args with
+    | [.yamlText y] => .jsonTree (yamlGlue y)
+    | _ => .bad
+  else if callee = "encoding.TomlToJson" then
+    match args with
+    | [.tomlText t] => .jsonTree (tomlGlue t)
+    | _ => .bad
+  else if callee = "UnmarshalJsonBytes" then
+    match args with
+    | .jsonTree j :: .target :: os =>
+      match optsOfEVs os with
+      | some l => .res (unmarshalWith (applyMOpts base l) fs j)
+      | none => .bad
+    | _ => .bad
+  else if callee = "LoadFromJsonBytes" then
+    match args with
+    | [.jsonTree j, .target] => .res (loadJsonO oc fs j)
+    | _ => .bad
+  else .bad
+
+/-- the reader variants: `io.ReadAll` hands on what it read; the bytes variants are THEIR data flow over `semBase`. -/
+def semTop (base oc : Opts) (fs : Fields) (callee : String) (args : List EV) : EV :=
+  if callee = "io.ReadAll" then
+    match args with
+    | [x] => x
+    | _ => .bad
+  else if callee = "UnmarshalYamlBytes" then
+    match args with
+    | c :: v :: os => runFwd (semBase base oc fs) [c, v] os .bad fwdYamlBytes
+    | _ => .bad
+  else if callee = "UnmarshalTomlBytes" then
+    match args with
+    | c :: v :: os => runFwd (semBase base oc fs) [c, v] os .bad fwdTomlBytes
+    | _ => .bad
+  else semBase base oc fs callee args
 
 end GoZero.C17
